@@ -29,6 +29,8 @@ def validate(module, cfg, executions, reset_record, max_reject=8, workers=1,
     chunks = [list(range(i, min(i + chunk, len(executions))))
               for i in range(0, len(executions), chunk)]
 
+    off = 1 if reset_record is not None else 0
+
     def do_chunk(idx):
         out = []
         pending = list(idx)
@@ -47,7 +49,7 @@ def validate(module, cfg, executions, reset_record, max_reject=8, workers=1,
             pos = 0
             bad = None
             for k, i in enumerate(pending):
-                n = len(executions[i]) + 1
+                n = len(executions[i]) + off
                 if consumed < pos + n:
                     bad = k
                     break
@@ -55,8 +57,8 @@ def validate(module, cfg, executions, reset_record, max_reject=8, workers=1,
             if bad is None:
                 raise core.MachineryError("trace validation: inconsistent consumed count\n" + r["tail"])
             i = pending[bad]
-            line = consumed - pos       # 0 = reset record itself
-            rec = executions[i][line - 1] if line >= 1 else reset_record
+            line = consumed - pos       # index within [reset?] + records
+            rec = executions[i][line - off] if line >= off else reset_record
             out.append(("acc", pending[:bad]))
             out.append(("rej", (i, line, rec, r["tail"], r["violated"])))
             pending = pending[bad + 1:]
@@ -83,8 +85,9 @@ def _run(module, cfg, execs, reset_record, workers, timeout, dfs):
     n = 0
     with open(path, "w") as f:
         for ex in execs:
-            f.write(json.dumps(reset_record) + "\n")
-            n += 1
+            if reset_record is not None:
+                f.write(json.dumps(reset_record) + "\n")
+                n += 1
             for rec in ex:
                 f.write(json.dumps(rec) + "\n")
                 n += 1
